@@ -115,6 +115,19 @@ def run(ctx):
                             "distinct_nontrivial": len(sample), "impl_outcomes": {}, "unmodelled": 0, "mismatches": 0, "oracle_violations": 0, "wall_s": 0})
     finally:
         os.rmdir(d1)
+    # what gets SIGNED is the canonical serialization of the value -- also for strings whose characters spell JSON text of another value
+    from cryptography.hazmat.primitives.asymmetric.ed25519 import Ed25519PrivateKey
+    from gen import SEEDS
+    from modelrun import ed_sign
+    spl = ["12", "null", "{}", "\"abc\"", "[\n  1\n]", "true", "{\n  \"a\": 1\n}", "1.0", "\\u00e9", 12, None, {}, "abc", [1], {"a": 1}, 1.0, "é"]
+    scases = [{"w": wire.case("serialize_and_sign", pl, Ed25519PrivateKey.from_private_bytes(SEEDS[0])), "meta": {"tag": "signed-bytes"}} for pl in spl]
+
+    def soracle(c, io):
+        pl = wire.dec(c["w"])[1]
+        want = "O" + wire.enc(ed_sign(SEEDS[0], json.dumps(pl, indent=2, sort_keys=True).encode("utf-8")).hex())
+        return None if io == want else "serialize_and_sign(%r) is not the signature over the canonical serialization of that value" % (pl,)
+    core.run_stream(ctx, core.Stream("serialize_and_sign signs exactly the canonical bytes (strings that look like JSON text included)", scases,
+                                     lambda c, io, mo: None if io == mo else "signature differs from the model's", soracle))
     # the same values after the rest of the package ran in the same process
     core.history_independence(ctx, "canonical bytes do not depend on what the process did before", [c["w"] for c in cases[:40]] + [c["w"] for c in pcases[:20]])
     # the parser model against json.loads: canonical texts, other valid texts, invalid texts
